@@ -72,7 +72,20 @@ def _contract(params, job):
     params.input_file = path
     calls = {"n": 0}
     orig_ob = gasol_asm.optimize_block
-    if fault is not None and site != "analysis":
+    orig_vb = gasol_asm.verify_block_from_list_of_sfs
+    if fault is not None and site == "compare-verify":
+        # the comparison of the two specifications raises for one block: Model/Contain.v verify = false
+        # (theorem rejected_kept)
+        def faulty_vb(old_sfs, new_sfs):
+            if any(k == fault or k.rsplit("_", 1)[0] == fault for k in old_sfs):
+                calls["n"] += 1
+                raise Exception("injected comparison failure", 6)
+            return orig_vb(old_sfs, new_sfs)
+        gasol_asm.verify_block_from_list_of_sfs = faulty_vb
+        fault_analysis = None
+    elif fault is not None and site == "compare-new":
+        fault_analysis = fault          # raised only for the re-analysis of the candidate (compare_failure_kept)
+    elif fault is not None and site != "analysis":
         # the search/rebuild stage raises for the sub-blocks of one block, at the call or after the first
         # sub-block has been optimized: Model/Contain.v backend b s = Raise (theorems backend_failure_kept,
         # backend_fault_local)
@@ -96,7 +109,7 @@ def _contract(params, job):
 
         def faulty(*a, **kw):
             name = kw.get("block_name", "")
-            if name == fault or name == "alreadyOptimized_" + fault:
+            if (name == fault and site != "compare-new") or name == "alreadyOptimized_" + fault:
                 calls["n"] += 1
                 raise Exception("injected analysis failure", 4)
             return orig(*a, **kw)
@@ -115,6 +128,7 @@ def _contract(params, job):
                     res["%s|%s|%s" % (c.contract_name, ident, b.block_name)] = b.to_plain()
     finally:
         gasol_asm.optimize_block = orig_ob
+        gasol_asm.verify_block_from_list_of_sfs = orig_vb
         if fault_analysis is not None:
             ir_block.evm2rbr_compiler = orig       # the worker process is reused for the next job
     orig_blocks = {}
@@ -207,6 +221,12 @@ def check(run):
                 site = "backend" if i % 2 == 0 else "backend-mid"
                 jobs.append((p, nm.split("|")[-1], site))
                 meta.append((p, nm, val, site))
+            # the comparison is reached only for blocks the optimizer changed
+            changed = [k for k in names if val["out"].get(k) != val["orig"].get(k)]
+            for i, nm in enumerate(changed[:(6 if quick else 20)]):
+                site = "compare-new" if i % 2 == 0 else "compare-verify"
+                jobs.append((p, nm.split("|")[-1], site))
+                meta.append((p, nm, val, site))
         res = gasol.pmap(_contract, jobs, init=pipeline._init, initargs=(["-greedy"],), timeout=900)
         for (p, nm, basev, site), (st, val) in zip(meta, res):
             evaluations += 1
@@ -236,7 +256,7 @@ def check(run):
         import shutil
         shutil.rmtree(work, ignore_errors=True)
     run.cov["evaluations"] = evaluations
-    run.cov["distinct_nontrivial"] = len(set(texts)) + dist["fault:contained"] + dist["fault-backend:contained"] + dist["fault-backend-mid:contained"]
+    run.cov["distinct_nontrivial"] = len(set(texts)) + dist["fault:contained"] + dist["fault-backend:contained"] + dist["fault-backend-mid:contained"] + dist["fault-compare-new:contained"] + dist["fault-compare-verify:contained"]
     run.cov["rule"] = ("per-block pipeline runs under rlimits (distinct block texts incl. boundary constants, NOT NOT, ISZERO chains, "
                        "17+ live values) and per-contract runs with an injected failure at one block: in the analysis, at the call of the "
                        "search/rebuild stage, or after its first sub-block")
